@@ -35,13 +35,18 @@ def contracts():
         return x
     IT = TIter(TVal)
     # ---- delete -----------------------------------------------------------
-    SRCIDX = '(k if k < position else k + count)'
+    # (any position, any count: the elements whose index lies in
+    # [position, position + count) - from position on for a negative count -
+    # are dropped, the others pass through in order)
+    DLO = 'max(position, 0)'
+    DHI = 'max(position + count, max(position, 0))'
+    SRCIDX = '(k if k < %s else k + %s - %s)' % (DLO, DHI, DLO)
     c(C + 'delete', params=dict(collection=IT, position=TInt, count=TInt),
-      track_pulls='collection', requires=['position >= 0'],
+      track_pulls='collection',
       ensures=[
-          'implies(count >= 0, out == %s[:position] + %s[position + count:])'
-          % (S_, S_),
-          'implies(count < 0, out == %s[:position])' % S_,
+          'implies(count >= 0, out == %s[:%s] + %s[%s:])'
+          % (S_, DLO, S_, DHI),
+          'implies(count < 0, out == %s[:%s])' % (S_, DLO),
           # streaming: the k-th result is available after pulling exactly
           # the source elements up to its own position
           'implies(count >= 0, forall(range(0, len(out)), lambda k: '
@@ -51,53 +56,66 @@ def contracts():
       loops=[dict(anchor='for i, t in enumerate(collection)', index='n',
                   invariant=[
                       'SRC.pos == n',
-                      'implies(count >= 0, out == %s[:min(n, position)] + '
-                      '%s[position + count:max(n, position + count)])' % (
-                          S_, S_),
-                      'implies(count < 0, out == %s[:min(n, position)])'
-                      % S_,
+                      'implies(count >= 0, out == %s[:min(n, %s)] + '
+                      '%s[%s:max(n, %s)])' % (S_, DLO, S_, DHI, DHI),
+                      'implies(count < 0, out == %s[:min(n, %s)])'
+                      % (S_, DLO),
                       'implies(count >= 0, forall(range(0, len(out)), '
                       'lambda k: pulls[k] == %s + 1))' % SRCIDX,
                       'implies(count < 0, forall(range(0, len(out)), '
                       'lambda k: pulls[k] == k + 1))'])])
     # ---- replace: value takes the place of [position, position+count) and
     # is emitted when the run is ENTERED ---------------------------------------
+    # (any position and any count: the elements whose index lies in
+    # [position, position + count) - from position on for a negative count -
+    # give way to ONE value, emitted at the first of them; with no such
+    # element the collection passes through)
+    LO = 'max(position, 0)'
+    HI = '(position + count)'
+
+    def hit(n):     # some index below n lies in the range
+        return ('((count >= 0 and %s < min(%s, %s)) or (count < 0 and %s < '
+                '%s))' % (LO, HI, n, LO, n))
+
+    def body(n):
+        return [
+            'implies(not %s, out == %s[:%s])' % (hit(n), S_, n),
+            'implies(%s and count >= 0, out == %s[:%s] + (value,) + '
+            '%s[%s:max(%s, %s)])' % (hit(n), S_, LO, S_, HI, n, HI),
+            'implies(%s and count < 0, out == %s[:%s] + (value,))' % (
+                hit(n), S_, LO),
+            # streaming: an element is emitted as soon as it is pulled, the
+            # value as soon as the range is entered
+            'forall(range(0, len(out)), lambda k: pulls[k] == '
+            '(k + 1 if (k <= %s or not %s) else k + %s - %s))' % (
+                LO, hit(n), HI, LO)]
     c(C + 'replace', params=dict(collection=IT, position=TInt, value=TVal,
                                  count=TInt),
       track_pulls='collection',
-      requires=['position >= 0', 'count >= 1'],
-      ensures=[
-          'implies(position < len(%s), out == %s[:position] + (value,) + '
-          '%s[position + count:])' % (S_, S_, S_),
-          'implies(position >= len(%s), out == %s)' % (S_, S_),
-          'forall(range(0, len(out)), lambda k: pulls[k] == '
-          '(k + 1 if k <= position else k + count))'],
+      ensures=body('len(%s)' % S_),
       loops=[dict(anchor='for i, t in enumerate(collection)', index='n',
-                  invariant=[
-                      'SRC.pos == n',
-                      'yielded == (n > position)',
-                      'implies(n <= position, out == %s[:n])' % S_,
-                      'implies(n > position, out == %s[:position] + '
-                      '(value,) + %s[position + count:max(n, position + '
-                      'count)])' % (S_, S_),
-                      'forall(range(0, len(out)), lambda k: pulls[k] == '
-                      '(k + 1 if k <= position else k + count))'])])
+                  invariant=['SRC.pos == n', 'yielded == %s' % hit('n')]
+                  + body('n'))])
     # ---- insert -------------------------------------------------------------
     c(C + 'iter_insert', params=dict(collection=IT, position=TInt,
                                      value=TVal),
-      track_pulls='collection', requires=['position >= 0'],
+      track_pulls='collection',
       ensures=[
-          'implies(position <= len(%s), out == %s[:position] + (value,) + '
-          '%s[position:])' % (S_, S_, S_),
+          'implies(0 <= position and position <= len(%s), out == '
+          '%s[:position] + (value,) + %s[position:])' % (S_, S_, S_),
           'implies(position > len(%s), out == %s + (value,))' % (S_, S_),
+          # (a negative position names no place in a streamed collection:
+          # the behaviour the suite pins is that nothing is inserted)
+          'implies(position < 0, out == %s)' % S_,
           'forall(range(0, min(len(%s), position)), lambda k: '
           'pulls[k] == k + 1)' % S_],
       loops=[dict(anchor='for i, t in enumerate(collection)', index='n',
                   invariant=[
                       'SRC.pos == n', 'i == n - 1',
-                      'implies(n <= position, out == %s[:n])' % S_,
-                      'implies(n > position, out == %s[:position] + '
-                      '(value,) + %s[position:n])' % (S_, S_),
+                      'implies(n <= position or position < 0, out == '
+                      '%s[:n])' % S_,
+                      'implies(n > position and position >= 0, out == '
+                      '%s[:position] + (value,) + %s[position:n])' % (S_, S_),
                       'forall(range(0, min(len(out), position)), lambda k: '
                       'pulls[k] == k + 1)'])])
     # ---- insertMany: the values go in front of element `position` (at the
@@ -122,35 +140,37 @@ def contracts():
                   ])])
     # ---- replaceMany: the run [position, position+count) (to the end when
     # count < 0) is replaced by the values, emitted when the run is entered ----
+    def hit_many(n):    # count == 0 replaces nothing
+        return ('((count > 0 and %s < min(%s, %s)) or (count < 0 and %s < '
+                '%s))' % (LO, HI, n, LO, n))
+
+    def body_many(n):
+        return [
+            'implies(not %s, out == %s[:%s])' % (hit_many(n), S_, n),
+            'implies(%s and count > 0, out == %s[:%s] + values + '
+            '%s[%s:max(%s, %s)])' % (hit_many(n), S_, LO, S_, HI, n, HI),
+            'implies(%s and count < 0, out == %s[:%s] + values)' % (
+                hit_many(n), S_, LO)]
     c(C + 'replace_many', params=dict(collection=IT, position=TInt,
                                       values=VS, count=TInt),
-      track_pulls='collection', requires=['position >= 0'],
-      ensures=[
-          'implies(count >= 1 and position < len(%s), out == %s[:position] '
-          '+ values + %s[position + count:])' % (S_, S_, S_),
-          'implies(count == 0 or position >= len(%s), out == %s)' % (S_, S_),
-          'implies(count < 0 and position < len(%s), out == %s[:position] '
-          '+ values)' % (S_, S_)],
+      track_pulls='collection',
+      ensures=body_many('len(%s)' % S_),
       loops=[dict(anchor='for i, t in enumerate(collection)', index='n',
-                  invariant=[
-                      'SRC.pos == n',
-                      'yielded == (count != 0 and n > position)',
-                      'implies(n <= position or count == 0, out == %s[:n])'
-                      % S_,
-                      'implies(n > position and count >= 1, out == '
-                      '%s[:position] + values + %s[position + count:max(n, '
-                      'position + count)])' % (S_, S_),
-                      'implies(n > position and count < 0, out == '
-                      '%s[:position] + values)' % S_])])
+                  invariant=['SRC.pos == n',
+                             'yielded == %s' % hit_many('n')]
+                  + body_many('n'))])
     c(C + 'list_insert', params=dict(collection=TSeq(TVal), position=TInt,
                                      value=TVal),
-      requires=['position >= 0'],
       ensures=[
           # agrees with the iterator overload on the common domain
-          'implies(position <= len(collection), result == '
+          'implies(0 <= position and position <= len(collection), result == '
           'collection[:position] + (value,) + collection[position:])',
           'implies(position > len(collection), result == collection + '
           '(value,))',
+          # a negative position counts from the end (Python's list.insert)
+          'implies(position < 0, result == collection[:max(len(collection) '
+          '+ position, 0)] + (value,) + collection[max(len(collection) + '
+          'position, 0):])',
           # a yaql list (hashable: usable as a set member / dict key)
           'type(result) is tuple'], serves=('C13',))
     c(C + 'to_list', params=dict(collection=IT),
